@@ -140,6 +140,14 @@ struct Exporter {
       pr.push_back(v);
     }
     o["pref"] = std::move(pr);
+    {
+      // parameter names of the callee as declared where the definition (if visible) or the first declaration names them
+      const FunctionDecl *Named = FD;
+      if (const FunctionDecl *Def = FD->getDefinition()) Named = Def;
+      json::Array pn;
+      for (auto *P : Named->parameters()) pn.push_back(P->getNameAsString());
+      o["pnames"] = std::move(pn);
+    }
     if (auto *MD = dyn_cast<CXXMethodDecl>(FD)) { o["mconst"] = MD->isConst(); o["mstatic"] = MD->isStatic(); }
     o["inrepo"] = inRepo(FD->getLocation());
   }
@@ -244,6 +252,10 @@ struct Exporter {
       o["k"] = "InitList"; json::Array a; for (auto *A : IL2->inits()) a.push_back(expr(A)); o["args"] = std::move(a);
     } else if (auto *LE = dyn_cast<LambdaExpr>(E)) {
       o["k"] = "Lambda"; o["body"] = stmt(LE->getBody());
+      json::Array lps;
+      if (auto *CO = LE->getCallOperator())
+        for (auto *P : CO->parameters()) { json::Object p; p["name"] = P->getNameAsString(); p["id"] = declId(P); p["t"] = typeInfo(P->getType()); lps.push_back(std::move(p)); }
+      o["params"] = std::move(lps);
     } else if (isa<CXXNullPtrLiteralExpr>(E)) {
       o["k"] = "Null";
     } else if (auto *CL = dyn_cast<CharacterLiteral>(E)) {
